@@ -128,7 +128,25 @@ fn icu(req: &Value) -> Value {
         let langids = std::panic::catch_unwind(std::panic::AssertUnwindSafe(|| {
             infos.get_locales_langids().map(|l| l.to_string()).collect::<Vec<_>>()
         }));
+        // the data keys the datagen drivers are configured with (read off their Debug form: `DataKey{plurals/cardinal@1}`),
+        // plain and with additional options / keys supplied by the build script (documented use for `t*_format!`)
+        fn names_in(debug: &str) -> Vec<String> {
+            let mut v: Vec<String> = debug.split("DataKey{").skip(1).filter_map(|r| r.split('}').next()).map(str::to_string).collect();
+            v.sort();
+            v.dedup();
+            v
+        }
+        let drivers = std::panic::catch_unwind(std::panic::AssertUnwindSafe(|| {
+            let mut d = serde_json::Map::new();
+            d.insert("plain".into(), json!(names_in(&format!("{:?}", infos.build_datagen_driver()))));
+            for (n, o) in all.iter() {
+                d.insert(format!("with_options:{n}"), json!(names_in(&format!("{:?}", infos.build_datagen_driver_with_options([*o])))));
+                d.insert(format!("with_data_keys:{n}"), json!(names_in(&format!("{:?}", infos.build_datagen_driver_with_data_keys(o.into_data_keys())))));
+            }
+            Value::Object(d)
+        }));
         json!({"keys": keys, "per_option": per_option, "locales": locales, "namespaces": namespaces,
+               "drivers": match drivers { Ok(v) => v, Err(_) => json!({"panic": true}) },
                "langids": match langids { Ok(v) => json!(v), Err(_) => json!({"panic": true}) }})
     })();
     let _ = std::fs::remove_dir_all(&work);
